@@ -227,6 +227,12 @@ def lattice_cases():
         for f in (num(k, mn=I(5)), num(k, mx=I(5)), num(k, mx=I(5), xmax=True), num(k, mn=I(-5), mx=I(5)),
                   num(k, mult=5), num(k, mult=-5), num(k, mn=F(4.5)), num(k, mx=F(4.5), xmax=True)):
             out += [(f, v) for v in vals]
+        if k != "Float":
+            # beyond 2**53: exact integer arithmetic and float arithmetic part ways (multiplesOf by division)
+            big = [I(z) for z in (2 ** 53 + 1, 2 ** 54 + 1, 2 ** 54 + 2, 10 ** 17 + 1, 10 ** 19 + 1, 10 ** 19 + 10,
+                                  -(2 ** 54 + 1), 3 * 10 ** 25 + 1)]
+            for m in (2, 5, 10):
+                out += [(num(k, mult=m), v) for v in big]
         for sgn in ("Positive", "Negative", "NonPositive", "NonNegative"):
             out += [(num(k, sgn), v) for v in vals]
             out += [(num(k, sgn, mn=I(-5), mx=I(5)), v) for v in vals]
